@@ -128,6 +128,9 @@ def spline_case(rng, order, d, n, ratio=None, t0=None, mode=None, with_grad=True
         t0 = rng.choice([0.0, 0.0, real(rng, -50, 50, short, 2), rng.choice([-1, 1]) * real(rng, 1e3, 1e5, short, 0)])
     mode = mode or rng.choice(['dur', 'dur', 'tp'])
     c = SplineCase(order, d, n, h, P, bc, t0=t0, mode=mode)
+    # query order / API variant: 0 = value-returning getters; 1 = reversed order, reference overloads writing into
+    # caller-owned buffers of the right shape that already hold data; 2 = every query twice, wrongly shaped buffers
+    c.qorder = rng.choice([0, 0, 1, 1, 2])
     if with_grad:
         c.gC, c.gT, k = upstream(rng, order, n, d, gkind)
         c.meta['gkind'] = k
